@@ -277,7 +277,8 @@ def msgOf (sender : Addr) : SysCall → Msg
   | .vote p o => .vote sender p (voteOption o)
   | .voteWeighted p os => .voteWeighted sender p (os.map (fun ow => (voteOption ow.1, weightDec ow.2)))
 
-inductive CallKind where | call | dcall
+/-- CALL, DELEGATECALL, STATICCALL, CALL carrying value. -/
+inductive CallKind where | call | dcall | scall | vcall
   deriving DecidableEq, Repr
 
 /-- What the code of a user frame does (a call shape). `proxy`/`sys` are sub-calls (CALL or DELEGATECALL) to a
@@ -318,16 +319,21 @@ mutual
 /-- one step of a frame; `none` = the frame reverts. -/
 def runNode {δ ν} (env : Env δ ν) (f : Frame) (st : Evm) : Node δ → Option (Evm × List (GLog δ))
   | .proxy k ignore target body =>
-    let f' : Frame := match k with
-      | .call => { self := target, sender := f.self }
-      | .dcall => f
-    match runNodes env f' (bump f'.self st) body with
-    | some r => some r
-    | none => if ignore then some (st, []) else none
+    match k with
+    | .scall => if ignore then some (st, []) else none      -- helper contracts write storage on entry: fails in a static frame
+    | _ =>
+      let f' : Frame := match k with
+        | .dcall => f
+        | _ => { self := target, sender := f.self }
+      match runNodes env f' (bump f'.self st) body with
+      | some r => some r
+      | none => if ignore then some (st, []) else none
   | .sys .call _ c =>
     some (st, [{ log := sysLog env c.contract.addr f.self c, origin := some (f.self, c) }])
   | .sys .dcall _ c =>
     some (st, [{ log := sysLog env f.self f.sender c, origin := none }])
+  | .sys .scall ignore _ => if ignore then some (st, []) else none   -- LOG in a static frame: the contract frame fails
+  | .sys .vcall ignore _ => if ignore then some (st, []) else none   -- the functions are not payable: the contract reverts
   | .sysBad _ ignore _ => if ignore then some (st, []) else none
   | .rawlog topics data => some (st, [{ log := { address := f.self, topics := topics, data := data }, origin := none }])
   | .revert => none
@@ -395,6 +401,91 @@ def deliverHooks {δ ν} (env : Env δ ν) (s : State ν) (logs : List (Log δ))
   | .ok n' => (({ s with native := n' }, .ok), r.trace)
   | .err _ => ((s, .hookFail), r.trace)
   | .panic _ => ((s, .panicked), r.trace)
+
+/-! ### The module-call path: a received XIBC packet whose call data reaches a system contract
+
+`x/xibc/keeper/msg_server.go` `RecvPacket` (as repaired: callback on the cache context `cctx`, written back only when
+`CallPacket` returned no error and the result code is 0; the acknowledgement always on `ctx`),
+`core/packet/keeper/evm.go` `CallEVMWithData` (`ApplyMessage(commit = true)`, then `PostTxProcessing` **on the caller's
+context**: on a hook error the error is returned but nothing is rolled back here), and the packet / Execute contracts:
+transfer part (`endpoint.onRecvPacket`: vouchers minted), then `Execute` CALLs the contract named in the packet with the
+packet's call data (msg.sender of that frame = the Execute contract); a failing call yields result code 3, a failing
+transfer part code 2. -/
+
+def packetAddr : Addr := [0,0,0,0,0,0,0,0,0,0,0,0,0,0,0,0,0x20,0,0,1]
+def executeAddr : Addr := [0,0,0,0,0,0,0,0,0,0,0,0,0,0,0,0,0x20,0,0,3]
+/-- ghost key under which the EVM state records the vouchers minted by the transfer part. -/
+def voucherKey : Addr := [0x76]
+
+def addCounter (a : Addr) (k : Nat) : Evm → Evm
+  | [] => [(a, k)]
+  | (b, n) :: rest => if b == a then (b, n + k) :: rest else (b, n) :: addCounter a k rest
+
+structure RecvCall (δ : Type) where
+  transfer : Option Nat      -- vouchers the transfer part mints on this chain (none = no transfer data)
+  transferOk : Bool          -- false: "token not bound" etc. ⇒ result code 2, call data not run
+  reverts : Bool             -- the whole `onRecvPacket` EVM call reverts (e.g. malformed contract address string)
+  call : Option (Node δ)     -- what Execute does: one sub-call into the contract named in the packet
+
+/-- `packet.onRecvPacket` inside the EVM: new EVM state, receipt logs, result code; `none` = EVM error. -/
+def recvEvm {δ ν} (env : Env δ ν) (st : Evm) (rc : RecvCall δ) : Option (Evm × List (GLog δ) × Nat) :=
+  if rc.reverts then none
+  else if !rc.transferOk then some (st, [], 2)
+  else
+    let st1 := match rc.transfer with
+      | some a => addCounter voucherKey a st
+      | none => st
+    match rc.call with
+    | none => some (st1, [], 0)
+    | some nd =>
+      match runNode env { self := executeAddr, sender := packetAddr } st1 nd with
+      | some (st2, gl) => some (st2, gl, 0)
+      | none => some (st1, [], 3)
+
+/-- outcome of `CallPacket(ctx, "onRecvPacket", …)`; `failed dirty`: an error was returned and the context the callback
+ran on is left in the state `dirty` (EVM state committed, hooks partially executed — `CallEVMWithData` rolls nothing back). -/
+inductive Cb (ν : Type) where
+  | done (s : State ν) (code : Nat)
+  | failed (dirty : State ν)
+  | panicked
+
+/-- `CallEVMWithData`: `junk` is whatever a failing hook chain leaves behind on the context it ran on — a parameter, so
+that every theorem holds for all of them. -/
+def callPacket {δ ν} (env : Env δ ν) (junk : State ν) (s : State ν) (rc : RecvCall δ) : Cb ν × List Msg :=
+  match recvEvm env s.evm rc with
+  | none => (.failed s, [])
+  | some (evm', gl, code) =>
+    let r := postTx env s.native (gl.map (·.log))
+    match r.res with
+    | .ok n' => (.done { evm := evm', native := n' } code, r.trace)
+    | .err _ => (.failed junk, r.trace)
+    | .panic _ => (.panicked, r.trace)
+
+structure Chain (ν : Type) where
+  st : State ν
+  receipts : List Nat            -- sequences received
+  acks : List (Nat × Nat)        -- acknowledgements written: (sequence, result code)
+
+/-- `msg_server.RecvPacket` after the commitment proof has been verified (receipt written on `ctx`). -/
+def recvPacket {δ ν} (env : Env δ ν) (junk : State ν) (c : Chain ν) (seq : Nat) (rc : RecvCall δ) :
+    Outcome (Chain ν) × List Msg :=
+  if c.receipts.contains seq then (.err "packet already received", [])
+  else
+    let ctx : Chain ν := { c with receipts := seq :: c.receipts }      -- PacketKeeper.RecvPacket(ctx)
+    match callPacket env junk ctx.st rc with                            -- callback on cctx (a branch of ctx)
+    | (.done s' code, tr) =>
+      if code = 0 then (.ok { ctx with st := s', acks := (seq, 0) :: ctx.acks }, tr)   -- write()
+      else (.ok { ctx with acks := (seq, code) :: ctx.acks }, tr)                        -- cctx discarded
+    | (.failed _, tr) => (.ok { ctx with acks := (seq, 1) :: ctx.acks }, tr)             -- error ack, cctx discarded
+    | (.panicked, tr) => (.panic "hook panic", tr)
+
+/-- `runTx` around `MsgRecvPacket`. -/
+def deliverRecv {δ ν} (env : Env δ ν) (junk : State ν) (c : Chain ν) (seq : Nat) (rc : RecvCall δ) :
+    (Chain ν × Status) × List Msg :=
+  match recvPacket env junk c seq rc with
+  | (.ok c', tr) => ((c', .ok), tr)
+  | (.err _, tr) => ((c, .failed), tr)
+  | (.panic _, tr) => ((c, .panicked), tr)
 
 /-! ### Bank: `OverwriteBankKeeper.BurnCoins` -/
 
@@ -482,6 +573,7 @@ structure Native where
   bondedPool : Addr
   notBondedPool : Addr
   valTokens : List Nat
+  valBonded : List Bool := []                     -- status of validator i (missing entry = Bonded); others are Unbonded
   dels : List ((Addr × Nat) × Nat)
   ubds : List ((Addr × Nat) × List Nat)
   reds : List ((Addr × Nat × Nat) × List Nat)
@@ -503,6 +595,10 @@ def bitLen (n : Nat) : Nat := if n = 0 then 0 else Nat.log2 n + 1
 def nbal (n : Native) (a : Addr) : Nat := balOf n.bank.bal a n.bond
 def nmove (n : Native) (src dst : Addr) (x : Nat) : Native :=
   { n with bank := { n.bank with bal := moveCoin n.bank.bal src dst n.bond x } }
+
+def isBonded (n : Native) (i : Nat) : Bool := n.valBonded.getD i true
+/-- the staking pool holding the tokens of validator `i`. -/
+def poolOf (n : Native) (i : Nat) : Addr := if isBonded n i then n.bondedPool else n.notBondedPool
 
 def addTokens (l : List Nat) (i : Nat) (x : Int) : List Nat := l.set i ((((l.getD i 0 : Nat) : Int) + x).toNat)
 
@@ -528,7 +624,7 @@ def execMsg (cls : Bytes → ValClass) (n : Native) : Msg → Outcome Native
     | .known i =>
       if nbal n del < amt then .err "insufficient funds"
       else
-        let n1 := nmove n del n.bondedPool amt
+        let n1 := nmove n del (poolOf n i) amt
         .ok { n1 with valTokens := addTokens n1.valTokens i amt,
                       dels := aset n1.dels (del, i) ((alookup n1.dels (del, i)).getD 0 + amt) }
   | .undelegate del v amt =>
@@ -544,7 +640,7 @@ def execMsg (cls : Bytes → ValClass) (n : Native) : Msg → Outcome Native
         if es.length ≥ maxEntries then .err "too many unbonding entries"
         else
           let n1 := unbond n del i amt sh
-          let n2 := nmove n1 n1.bondedPool n1.notBondedPool amt
+          let n2 := if isBonded n i then nmove n1 n1.bondedPool n1.notBondedPool amt else n1
           .ok { n2 with ubds := aset n2.ubds (del, i) (es ++ [amt]) }
   | .redelegate del s t amt =>
     match cls s with
@@ -566,9 +662,11 @@ def execMsg (cls : Bytes → ValClass) (n : Native) : Msg → Outcome Native
             if es.length ≥ maxEntries then .err "too many redelegation entries"
             else
               let n1 := unbond n del i amt sh
-              .ok { n1 with valTokens := addTokens n1.valTokens j amt,
-                            dels := aset n1.dels (del, j) ((alookup n1.dels (del, j)).getD 0 + amt),
-                            reds := aset n1.reds (del, i, j) (es ++ [amt]) }
+              let n2 := if poolOf n i == poolOf n j then n1 else nmove n1 (poolOf n i) (poolOf n j) amt
+              .ok { n2 with valTokens := addTokens n2.valTokens j amt,
+                            dels := aset n2.dels (del, j) ((alookup n2.dels (del, j)).getD 0 + amt),
+                            -- an Unbonded source validator completes at once: no redelegation entry
+                            reds := if isBonded n i then aset n2.reds (del, i, j) (es ++ [amt]) else n2.reds }
   | .withdraw del v =>
     match cls v with
     | .invalid => .err "bech32"
